@@ -42,10 +42,10 @@ func init() {
 	register("scenario", scenarioMain)
 }
 
-var importOnce sync.Once
+var scnImportOnce sync.Once
 
 func importAll() {
-	importOnce.Do(func() {
+	scnImportOnce.Do(func() {
 		var lim syscall.Rlimit
 		if syscall.Getrlimit(syscall.RLIMIT_NOFILE, &lim) == nil && lim.Cur < lim.Max {
 			lim.Cur = lim.Max
@@ -221,7 +221,7 @@ func writeSources(dir string, rows int) {
 	}
 }
 
-func renderYAML(c map[string]interface{}, dir string) string {
+func scnRenderYAML(c map[string]interface{}, dir string) string {
 	var b strings.Builder
 	id := vt.Int(c["id"])
 	b.WriteString("variable_sources:\n")
@@ -270,7 +270,7 @@ func renderYAML(c map[string]interface{}, dir string) string {
 	return b.String()
 }
 
-func renderHCL(c map[string]interface{}, dir string) string {
+func scnRenderHCL(c map[string]interface{}, dir string) string {
 	var b strings.Builder
 	id := vt.Int(c["id"])
 	for _, s := range []string{"users", "items"} {
@@ -384,7 +384,7 @@ type caseObs struct {
 	Format   string             `json:"format"`
 }
 
-func runEngine(conf *cli.CliConfig, agg core.Aggregator, timeout time.Duration) string {
+func scnRunEngine(conf *cli.CliConfig, agg core.Aggregator, timeout time.Duration) string {
 	conf.Engine.Pools[0].Aggregator = agg
 	return runEngineWith(engine.New(zap.NewNop(), nopMetrics(), conf.Engine), timeout)
 }
@@ -443,9 +443,9 @@ func runCase(c map[string]interface{}, tgt *scentarget.Target, root string, hcl 
 	writeSources(dir, vt.Int(c["rows"]))
 	obs := caseObs{Log: []scentarget.Entry{}, Samples: []obsSample{}, Ring: []string{}, Format: "yaml"}
 	payload := filepath.Join(dir, "payload.yaml")
-	text := renderYAML(c, dir)
+	text := scnRenderYAML(c, dir)
 	if hcl {
-		payload, text, obs.Format = filepath.Join(dir, "payload.hcl"), renderHCL(c, dir), "hcl"
+		payload, text, obs.Format = filepath.Join(dir, "payload.hcl"), scnRenderHCL(c, dir), "hcl"
 	}
 	if err := os.WriteFile(payload, []byte(text), 0o644); err != nil {
 		panic(err)
@@ -459,7 +459,7 @@ func runCase(c map[string]interface{}, tgt *scentarget.Target, root string, hcl 
 		return obs
 	}
 	agg := &recAggregator{}
-	obs.RunErr = runEngine(conf, agg, 120*time.Second)
+	obs.RunErr = scnRunEngine(conf, agg, 120*time.Second)
 	obs.Log = tgt.Log()
 	obs.Samples = agg.Samples()
 	tgt.DropConns()
